@@ -70,30 +70,38 @@ type vaEvent struct {
 }
 
 type vaWorld struct {
-	n        int
-	k        int // run-length bound: after k firings every condition is false
-	feat     int
-	names    []string
-	entries  []*ast.RuleEntry
-	whenIdx  map[*ast.WhenScope]int
-	thenIdx  map[*ast.ThenScope]int
-	sal      []int
-	deleted  []bool
-	events   []vaEvent
-	fired    int
-	cancel   bool
-	defunc   *ast.BuiltInFunctions
-	dc       ast.IDataContext
-	complete bool
-	nListen  int
-	deadline bool // the context ends by deadline rather than by cancel()
+	n           int
+	k           int // run-length bound: after k firings every condition is false
+	feat        int
+	names       []string
+	entries     []*ast.RuleEntry
+	whenIdx     map[*ast.WhenScope]int
+	thenIdx     map[*ast.ThenScope]int
+	sal         []int
+	deleted     []bool
+	events      []vaEvent
+	fired       int
+	cancel      bool
+	defunc      *ast.BuiltInFunctions
+	dc          ast.IDataContext
+	complete    bool
+	nListen     int
+	deadline    bool // the context ends by deadline rather than by cancel()
+	hasDeadline bool // the context carries a (far) deadline; it may still be cancelled by hand before
 }
 
 type vaCtx struct{ w *vaWorld }
 
-func (c *vaCtx) Deadline() (time.Time, bool) { return time.Time{}, false }
-func (c *vaCtx) Done() <-chan struct{}       { return nil }
-func (c *vaCtx) Value(key any) any           { return nil }
+// Deadline: a context created with WithTimeout / WithDeadline reports its deadline - also when it is cancelled by hand
+// long before (hasDeadline: a deadline far in the future; what ends the context is still the flag).
+func (c *vaCtx) Deadline() (time.Time, bool) {
+	if c.w.hasDeadline {
+		return time.Unix(4000000000, 0), true
+	}
+	return time.Time{}, false
+}
+func (c *vaCtx) Done() <-chan struct{} { return nil }
+func (c *vaCtx) Value(key any) any     { return nil }
 func (c *vaCtx) Err() error {
 	if c.w.cancel {
 		if c.w.deadline {
@@ -382,7 +390,8 @@ func vaCheck(w *vaWorld, eng *GruleEngine, res vaResult, first int, preCancelled
 		cur = &vaCycle{num: num, bc: bc, w: map[int]int{}, wCount: map[int]int{}, ev: map[int]int{}, evCand: map[int]bool{}}
 		cycles = append(cycles, cur)
 	}
-	flagAt := -1 // index (in evs) of the event during which the flag flipped
+	flagAt := -1                     // index (in evs) of the event during which the flag flipped
+	cancelledInsideAnAction := false // the flag flipped inside an action that then completed normally (and did not call Complete)
 	stubAfterFlag := false
 	whenAfterFlagOK := true
 	for i, e := range evs {
@@ -441,6 +450,9 @@ func vaCheck(w *vaWorld, eng *GruleEngine, res vaResult, first int, preCancelled
 			if e.flagSet || preCancelled {
 				stubAfterFlag = true
 			}
+			if e.flipped && e.out == 0 && e.eff[0] != effComplete && e.eff[1] != effComplete {
+				cancelledInsideAnAction = true
+			}
 			// C03: the fired rule is a candidate of its cycle with maximal salience
 			isCand := cur.w[e.rule] == outTrue && cur.wCount[e.rule] > 0
 			verif.Assert("C03:fired-rule-was-satisfied-in-this-cycle", isCand)
@@ -492,6 +504,7 @@ func vaCheck(w *vaWorld, eng *GruleEngine, res vaResult, first int, preCancelled
 				// C10: Retract affects exactly the named rule, Complete nothing but the run's end: every rule that was
 				// neither removed nor retracted BY ITS EXACT NAME still takes part (an unknown or case-variant name retracts nothing)
 				verif.Assert("C10:only-the-named-rule-is-retracted", c.wCount[r] == 1)
+				verif.Assert("C14:rule-whose-condition-failed-earlier-is-tried-again-in-every-later-cycle", c.wCount[r] == 1)
 				if w.nListen > 0 {
 					verif.Assert("C06:each-active-rule-reported-exactly-once-per-cycle", c.ev[r] == 1)
 				}
@@ -616,6 +629,10 @@ func vaCheck(w *vaWorld, eng *GruleEngine, res vaResult, first int, preCancelled
 		verif.Assert("C15:pre-cancelled-context-fires-nothing", nT == 0)
 		verif.Assert("C15:pre-cancelled-context-returns-its-error", isCtx)
 	}
+	if cancelledInsideAnAction && !completeCalled {
+		// whatever the rule pool looks like afterwards (every rule may have been retracted): the run ends with the context's error
+		verif.Assert("C15:cancellation-inside-an-action-ends-the-run-with-the-context-error", isCtx)
+	}
 	if res.err != nil && (flagAt >= 0 || preCancelled) && failedAction < 0 && !isLimit && !(condFailed >= 0 && eng.ReturnErrOnFailedRuleEvaluation) {
 		verif.Assert("C15:cancellation-error-is-the-context-error", isCtx)
 	}
@@ -629,6 +646,7 @@ func VerifTierA(n, k, feat int) {
 	pre := false
 	if feat&fCancel != 0 {
 		ctx = &vaCtx{w: w}
+		w.hasDeadline = verif.Choice("context-carries-a-deadline", 2) == 1
 		switch verif.Choice("pre-cancelled", 3) {
 		case 1:
 			w.cancel, pre = true, true
